@@ -114,8 +114,20 @@ def all_nodes(mod):
     return out
 
 
+def choice_ext_order_violation(mod, t):
+    """X.680 CHOICE rule: the tags of the extension addition alternatives must be in canonical order (each greater than
+    the previous ones); PER indexes extension additions textually and relies on it."""
+    if t.kind != 'CHOICE' or not t.adds:
+        return False
+    mt = member_tags(mod, t)[len(t.root):]
+    keys = [min_tag(mod, m.type, tg) for m, tg in mt]
+    return any(keys[i] >= keys[i + 1] for i in range(len(keys) - 1))
+
+
 def legal(mod):
     for t in all_nodes(mod):
         if t.kind in ('SEQUENCE', 'SET', 'CHOICE') and distinct_violations(mod, t):
+            return False
+        if choice_ext_order_violation(mod, t):
             return False
     return True
